@@ -10,6 +10,9 @@ Model of the production templates of `/repo/ak/llparser.py` and of the default c
                        — `ListProds.__init__`, `complete_init` (the two signature dictionaries with the
                          positions found by `_find_index`) and `gen_productions`.
 * `mkMapOpts`, `MapOpts.genProds`, `mapSigs`, `kvTailSigs`, `kvSig` — the same for `MapProds`.
+* `seqSymbols`, `prodRules`, `getTokens`
+                       — `ProdSequence.complete_init` / `LLParser._make_prod_rules_list`: expansion of the
+                         `AnyTokenExcept` pseudo-item wherever it stands (iteration order of the terminal set = data).
 * `seqGenProds`, `processSeq`, `flattenSeq`
                        — `ProdSequence.gen_productions`, `LLParser._process_seq_telement` and its use by the
                          parse loop (innermost node first).
@@ -100,7 +103,7 @@ structure ListOpts where
   afd : Bool
   optional : Bool
   result : Name
-  deriving Repr
+  deriving Repr, DecidableEq
 
 /-- `ListProds.__init__` followed by `complete_init(result_symbol, …)` (the fields it stores) -/
 def mkListOpts (a : ListArgs) (result : Name) : Except Err ListOpts :=
@@ -169,7 +172,7 @@ structure MapOpts where
   optional : Bool
   afd : Bool
   result : Name
-  deriving Repr
+  deriving Repr, DecidableEq
 
 def mkMapOpts (a : MapArgs) (result : Name) : Except Err MapOpts :=
   if a.openBr.isNone != a.closeBr.isNone then .error .assertion else
@@ -219,10 +222,74 @@ def MapOpts.genProds (o : MapOpts) : Prods :=
 
 def seqElemSuffix : Name := Gen.C05.seqElemSuffix
 
+/-- a symbol argument of `ProdSequence(...)` / an entry of a list of productions: a plain name (a one-symbol
+production) or the pseudo-item `AnyTokenExcept(*excluded)` -/
+inductive SymArg where
+  | sym (s : Name)
+  | anyExcept (excluded : List Name)
+  deriving Repr
+
+def SymArg.isSpecial : SymArg → Bool
+  | .anyExcept _ => true
+  | .sym _ => false
+
+/-- `AnyTokenExcept.get_tokens(terminals, …)`: `GrammarError` for an excluded name that is no terminal; the tokens in
+the iteration order of `terminals` (a Python set: the order is data) -/
+def getTokens (terminals excluded : List Name) : Except Err (List Name) :=
+  if excluded.any (fun t => decide (t ∉ terminals)) then .error .grammarError
+  else .ok (terminals.filter fun t => decide (t ∉ excluded))
+
+def expandArgs (terminals : List Name) : List SymArg → Except Err (List Name)
+  | [] => .ok []
+  | .sym s :: rest =>
+    match expandArgs terminals rest with
+    | .ok r => .ok (s :: r)
+    | .error e => .error e
+  | .anyExcept ex :: rest =>
+    match getTokens terminals ex with
+    | .error e => .error e
+    | .ok ts =>
+      match expandArgs terminals rest with
+      | .ok r => .ok (ts ++ r)
+      | .error e => .error e
+
+/-- `ProdSequence.complete_init`: `self.symbols` after the replacement of the (at most one) `AnyTokenExcept` item -/
+def seqSymbols (terminals : List Name) (args : List SymArg) : Except Err (List Name) :=
+  if (args.filter SymArg.isSpecial).length > 1 then .error .grammarError
+  else expandArgs terminals args
+
 /-- `ProdSequence.gen_productions` (`symbols` after the expansion of `AnyTokenExcept`) -/
 def seqGenProds (result : Name) (symbols : List Name) : Prods :=
   [(result, [[result ++ seqElemSuffix, result], []]),
    (result ++ seqElemSuffix, symbols.map fun s => [s])]
+
+/-- an entry of the list of productions of a symbol: `None`, a tuple, or `AnyTokenExcept(...)` -/
+inductive ProdArg where
+  | empty
+  | tuple (syms : List Name)
+  | anyExcept (excluded : List Name)
+  deriving Repr
+
+/-- `LLParser._make_prod_rules_list`: the right-hand sides in order (`sort_n` is numbered by the caller); a second
+`AnyTokenExcept` is a `GrammarError` -/
+def prodRules (terminals : List Name) : List ProdArg → Bool → Except Err (List (List Name))
+  | [], _ => .ok []
+  | .empty :: rest, seen =>
+    match prodRules terminals rest seen with
+    | .ok r => .ok ([] :: r)
+    | .error e => .error e
+  | .tuple p :: rest, seen =>
+    match prodRules terminals rest seen with
+    | .ok r => .ok (p :: r)
+    | .error e => .error e
+  | .anyExcept ex :: rest, seen =>
+    if seen then .error .grammarError else
+    match getTokens terminals ex with
+    | .error e => .error e
+    | .ok ts =>
+      match prodRules terminals rest true with
+      | .ok r => .ok (ts.map (fun t => [t]) ++ r)
+      | .error e => .error e
 
 /-- `LLParser._process_seq_telement` -/
 def processSeq : Val → Except Err Val
@@ -257,14 +324,14 @@ def flattenSeq : Val → Except Err Val
 inductive Template where
   | list (o : ListOpts)
   | map (o : MapOpts)
-  deriving Repr
+  deriving Repr, DecidableEq
 
 structure Cleanuper where
   templates : List (Name × Template)
   choice : List Name
   keep : List Name
   squash : List Name
-  deriving Repr
+  deriving Repr, DecidableEq
 
 /-- `StdCleanuper._make_squash_data`: returns `(squash_symbols, choice_symbols)` -/
 def mkSquashData (prodsMap : Prods) (suffix : List Name) : List Name × List Name :=
